@@ -43,9 +43,9 @@ const (
 	C12SwitchWithoutQuorum   = "switch-without-quorum"
 	C12ApprovalsJump         = "approvals-jump"
 	// exact predictors of two specific ways the quorum can be missing
-	C12ApprovalAtWindowEnd    = "approval-counted-at-window-end"  // quorum only with the approval added by the block AT the announced window end
-	C12ApprovalAfterWindow    = "approval-counted-after-window"   // quorum only with approvals added after the announced window end
-	C12ZeroWaitWithoutQuorum  = "zero-wait-switch-without-quorum" // announced switch round == announced window end, switch happens there without quorum
+	C12ApprovalAtWindowEnd   = "approval-counted-at-window-end"  // quorum only with the approval added by the block AT the announced window end
+	C12ApprovalAfterWindow   = "approval-counted-after-window"   // quorum only with approvals added after the announced window end
+	C12ZeroWaitWithoutQuorum = "zero-wait-switch-without-quorum" // announced switch round == announced window end, switch happens there without quorum
 )
 
 // C12Monitor is the online trace checker. The zero value is "no proposal".
@@ -64,7 +64,7 @@ type C12Monitor struct {
 	// AtEndByBuilder is a note kept for the harness (set by the caller, reset with every
 	// announcement): the approval of the window-end round was added by the builder under test.
 	AtEndByBuilder bool
-	Switches  int
+	Switches       int
 }
 
 func (m *C12Monitor) approve(n uint64) {
